@@ -109,17 +109,17 @@ def _use_stmt(fi, node):
         return None
 
 
-def expand_expr(fi, expr, use_stmt=None, depth=0):
+def expand_expr(fi, expr, use_stmt=None, depth=0, keep=()):
     """A copy of ``expr`` in which single-assignment locals are replaced by the expressions they name (``body =
     self.to_text(); f(response=body)`` reads as ``f(response=self.to_text())``).  ``use_stmt``: the statement the
-    expression belongs to (found through the parent map when omitted)."""
+    expression belongs to (found through the parent map when omitted); ``keep``: names left as they are."""
     if expr is None:
         return None
     if use_stmt is None:
         use_stmt = _use_stmt(fi, expr)
     if use_stmt is None or depth > 6:
         return copy.deepcopy(expr)
-    shadowed = set()
+    shadowed = set(keep)
     for n in ast.walk(expr):
         if isinstance(n, ast.comprehension):
             shadowed |= names_stored(n.target)
@@ -131,7 +131,7 @@ def expand_expr(fi, expr, use_stmt=None, depth=0):
             if isinstance(node.ctx, ast.Load) and node.id not in shadowed:
                 v = local_value(fi, node.id, use_stmt)
                 if v is not None:
-                    return ast.copy_location(expand_expr(fi, v, _use_stmt(fi, v), depth + 1), node)
+                    return ast.copy_location(expand_expr(fi, v, _use_stmt(fi, v), depth + 1, keep), node)
             return node
     return X().visit(copy.deepcopy(expr))
 
@@ -705,6 +705,17 @@ def check_adapt(rep, repo, err, base, msm):
     pair = (repo.try_fold(reb[fv][0][1], err), repo.try_fold(reb[mp][0][1], err)) if shape else None
     fb_ok = shape and isinstance(pair[0], str) and isinstance(pair[1], str) and msm.get(pair[1]) == pair[0] and pair[0] == 'text' and \
         in_fallback(reb[fv][0][0]) and in_fallback(reb[mp][0][0]) and (kind != 'index' or h is not None or guarded_by_test)
+    acfg = cfg_of(ad)
+    if not fb_ok and kind == 'index' and h is None and not guarded_by_test and not reb[fv] and len(reb[mp]) == 1 and reb[mp][0][1] is not None:
+        # the key is normalised first (``if mimetype not in TABLE: mimetype = 'text/plain'``), the lookup is then total:
+        # every path to the lookup has seen the membership test succeed or has re-bound the key to a key of the table
+        st_, v_ = reb[mp][0]
+        key = repo.try_fold(v_, err)
+        cs = conds(ad, st_)
+        neg = has_cond(cs, member(True), False) or has_cond(cs, member(False), True)
+        pos_nodes = [nid for nid, t, p in acfg.branches() if (member(True)(t) and p) or (member(False)(t) and not p)]
+        fb_ok = neg and isinstance(key, str) and msm.get(key) == 'text' and \
+            acfg.must_pass(pos_nodes + acfg.nodes_of(st_), acfg.entry, acfg.nodes_of(lookup))
     rep.check('R09.b', fkey(ad, 'fallback pair'), fb_ok,
               'an unsupported type falls back to a (format, mimetype) pair of the table, re-binding both' if fb_ok else
               'the fallback for unsupported types does not re-bind format and mimetype to a matching pair', err, ad.node)
@@ -739,18 +750,17 @@ def check_adapt(rep, repo, err, base, msm):
                 ct.append((s, norm(t)))
     if len(data) != 1 or len(ct) != 1:
         raise AnalysisError('adapt: the statements setting the body (%d) and the Content-Type (%d) were not found' % (len(data), len(ct)))
-    dv = expand_expr(ad, data[0][1], data[0][0])
+    dv = expand_expr(ad, data[0][1], data[0][0], keep=(fv, mp))
     ok_body = is_serialiser_call(dv)
-    cv = expand_expr(ad, ct[0][0].value, ct[0][0])
+    cv = expand_expr(ad, ct[0][0].value, ct[0][0], keep=(fv, mp))
     if ct[0][1] == 'self.mimetype':
         ok_ct = isinstance(cv, ast.Name) and cv.id == mp
     else:
         a0 = argn(cv, 'mimetype', 0) if isinstance(cv, ast.Call) and call_tail(cv) == 'get_content_type' else None
         ok_ct = isinstance(a0, ast.Name) and a0.id == mp
-    acfg = cfg_of(ad)
     dn, cn = acfg.nodes_of(data[0][0]), acfg.nodes_of(ct[0][0])
     defs = acfg.nodes_of(lookup) + acfg.nodes_of_all([s for nm in reb for s, v in reb[nm]])
-    ok = ok_body and ok_ct and acfg.must_pass(dn, acfg.entry, acfg.exit, normal_only=True) and \
+    ok = ok_body and ok_ct and acfg.must_pass(defs, acfg.entry, dn + cn) and acfg.must_pass(dn, acfg.entry, acfg.exit, normal_only=True) and \
         acfg.must_pass(cn, acfg.entry, acfg.exit, normal_only=True) and \
         not (set(defs) & acfg.reach(dn + cn, include_src=False))
     rep.check('R09.b', fkey(ad, 'body and header from one pair'), ok,
@@ -778,6 +788,14 @@ def negotiated_over_table(repo, err, mod, fi, expr, use_stmt):
             and recv.value.id in fi.params() and _mod_of(repo, recv.value, mod) is mod):
         return False
     table = argn(e, 'matches', 0)
+    # the same keys in the same order: list(T), tuple(T), T.keys(), iter(T)
+    for _ in range(2):
+        if isinstance(table, ast.Call) and isinstance(table.func, ast.Name) and table.func.id in ('list', 'tuple', 'iter') and \
+                len(table.args) == 1 and not table.keywords:
+            table = table.args[0]
+        elif isinstance(table, ast.Call) and isinstance(table.func, ast.Attribute) and table.func.attr == 'keys' and not table.args \
+                and not table.keywords:
+            table = table.func.value
     if not _is_table(table):
         return False
     tm = _mod_of(repo, table, mod)
